@@ -32,7 +32,7 @@ COMMUTATIVE_METHODS = {"HashMap::entry", "Entry::or_default", "Entry::or_insert_
                        "Extend::extend", "HashSet::insert", "BTreeSet::insert", "BTreeSet::remove", "HashSet::remove",
                        "HashMap::remove", "HashMap::get", "HashMap::contains_key", "HashSet::contains", "Clone::clone",
                        "HashMap::get_mut", "Derives::insert_derive", "Derives::insert_attribute", "Option::map", "Iterator::cloned",
-                       "HashSet::iter", "Vec::push:set-compared", "IntoIterator::into_iter", "Iterator::next"}
+                       "HashSet::iter", "Vec::push:set-compared", "IntoIterator::into_iter", "Iterator::next", "TypeParameters::mark_used"}
 SORTS = {"slice::sort", "slice::sort_by", "slice::sort_by_key", "slice::sort_unstable", "slice::sort_unstable_by",
          "slice::sort_unstable_by_key", "slice::sort_by_cached_key"}
 UNORDERED_TYPES = ("std::collections::HashMap<", "std::collections::HashSet<", "std::collections::BTreeSet<", "std::collections::BTreeMap<")
